@@ -1003,6 +1003,34 @@ func (index *fkConstraint) CheckIntegrity(ctx MutateContext, fix bool, errorSink
 	return nil
 }
 
+// fkEqualsFilter matches the entities whose string symbol holds exactly the given id, like the
+// parsed filter `symbol = "id"` does for ids that need no escaping
+type fkEqualsFilter struct {
+	symbol string
+	id     string
+}
+
+func (node *fkEqualsFilter) String() string {
+	return fmt.Sprintf("%v = %q", node.symbol, node.id)
+}
+
+func (node *fkEqualsFilter) GetType() ast.NodeType {
+	return ast.NodeTypeBool
+}
+
+func (node *fkEqualsFilter) Accept(visitor ast.Visitor) {
+	visitor.VisitSymbol(node.symbol, ast.NodeTypeString)
+}
+
+func (node *fkEqualsFilter) IsConst() bool {
+	return false
+}
+
+func (node *fkEqualsFilter) EvalBool(s ast.Symbols) bool {
+	value := s.EvalString(node.symbol)
+	return value != nil && *value == node.id
+}
+
 type fkDeleteCascadeConstraint struct {
 	symbol      EntitySymbol
 	cascadeType CascadeType
@@ -1021,10 +1049,8 @@ func (index *fkDeleteCascadeConstraint) ProcessAfterUpdate(*IndexingContext) {
 
 func (index *fkDeleteCascadeConstraint) ProcessBeforeDelete(ctx *IndexingContext) {
 	if !ctx.ErrHolder.HasError() {
-		filter, err := ast.Parse(index.symbol.GetStore(), fmt.Sprintf(`%v = "%v"`, index.symbol.GetName(), string(ctx.RowId)))
-		if ctx.ErrHolder.SetError(err) {
-			return
-		}
+		// the predicate is built as a node, not as filter text: an id is data and may contain any character
+		filter := &fkEqualsFilter{symbol: index.symbol.GetName(), id: string(ctx.RowId)}
 
 		targetStore := index.symbol.GetStore()
 
